@@ -75,7 +75,8 @@ def EXHAUSTIVE(ctx):
 
 def streams(ctx):
     return [("tokens", (total_tok(ctx) + BLOCK - 1) // BLOCK), ("tokens_random", ctx.scale(1500, 40000)),
-            ("hostile_ir", ctx.scale(250, 5000)), ("doctrans", ctx.scale(60, 1500)), ("cst", ctx.scale(40, 600))]
+            ("hostile_ir", ctx.scale(250, 5000)), ("doctrans", ctx.scale(60, 1500)), ("cst", ctx.scale(40, 600)),
+            ("alternatives", ctx.scale(600, 12000))]
 
 
 def setup_shard(ctx, P):
@@ -125,9 +126,47 @@ def hostile_text(r):
     return r.choice(("   \n", "\n \n", "")) + t
 
 
+ALTERNATIVES = ("one of `fast`, `slow` or `auto`", "a name or an id", "list of things", "either 'np' or 'tf'",
+                "can be `foo` or `bar`. More text here", "tuple of sizes or None", "str or int", "kind of thing",
+                "`a`|`b` or `c`", "path/to or other")
+ODD_SPACE = ("\t", "\u00a0", "\n", "\n    ", "\r\n", "\x0b", "  ", "\t\t", " \t ")
+
+
+def alternatives_doc(r):
+    """prose the ad-hoc type scanner walks character by character, with white-space other than U+0020 inside"""
+    text = r.choice(ALTERNATIVES)
+    for _ in range(r.randint(1, 3)):
+        spaces = [i for i, ch in enumerate(text) if ch == " "]
+        if not spaces:
+            break
+        i = r.choice(spaces)
+        text = text[:i] + r.choice(ODD_SPACE) + text[i + 1:]
+    return "%s %s" % (irgen.rand_doc(r, 2, stop=False), text) if r.random() < 0.5 else text
+
+
 def run_case(ctx, P, stream, idx):
     r = ctx.rng(stream, idx)
     w = {"stream": stream, "idx": idx}
+    if stream == "alternatives":
+        import cdd.shared.docstring_parsers as dp
+
+        style = r.choice(STYLES)
+        dps = [(nm, r.choice((None, "int", "str")), alternatives_doc(r), Ellipsis) for nm in r.sample(irgen.NAMES[:20], r.randint(1, 3))]
+        text, _ = docgen.compose(r, style, indent=r.randint(0, 1), params=dps, returns=(None, alternatives_doc(r)),
+                                 types=r.random() < 0.5, with_footer=False, paragraphs=1)
+        P.case({"doc": text}, klass="alternatives/" + style, sample={"docstring": text})
+        for ww in (True, False):
+            monitored(P, "docstring.parse", lambda: dp.parse_docstring(text, word_wrap=ww), len(text), budget_linear,
+                      dict(w, text=text, word_wrap=ww))
+        names = [p_[0] for p_ in dps]
+        fsrc = "def foo(%s):\n    %s\n    return None\n" % (", ".join(names), '"""%s"""' % text.replace("\\", "\\\\").replace('"""', "'''"))
+        try:
+            node = ast.parse(fsrc).body[0]
+        except SyntaxError:
+            return
+        monitored(P, "function.parse", lambda: cdd.function.parse.function(node), len(fsrc), budget_linear,
+                  dict(w, src=fsrc))
+        return
     if stream == "tokens":
         lo, hi = idx * BLOCK, min(total_tok(ctx), (idx + 1) * BLOCK)
         for i in range(lo, hi):
